@@ -311,6 +311,10 @@ func (st *Storage) batchDoneFunc(
 }
 
 func BatchRemove(st *Storage, r *leveldbutil.Range, limit int) (int, error) {
+	if limit < 1 {
+		return 0, errors.Errorf("batch remove; limit should be over zero")
+	}
+
 	if _, err := st.db(); err != nil {
 		return 0, err
 	}
